@@ -43,7 +43,7 @@ def fixed_env(extra=None):
         'CARGO_NET_OFFLINE': 'true',
         'RAYON_NUM_THREADS': '2',
     }
-    for k in ('RUSTUP_HOME', 'CARGO_HOME'):
+    for k in ('RUSTUP_HOME', 'CARGO_HOME', 'RUST_LOG'):
         if k in os.environ:
             e[k] = os.environ[k]
     if extra:
@@ -102,7 +102,7 @@ class WorkerTimeout(Exception):
 class Worker:
     """Client of one bsmon process."""
 
-    def __init__(self, extra_env=None, rlimit_as_gb=8, stderr_path=None):
+    def __init__(self, extra_env=None, rlimit_as_gb=8, stderr_path=None, cpus=None):
         self.log = []
         self.stderr_path = stderr_path
         errf = open(stderr_path, 'wb') if stderr_path else subprocess.DEVNULL
@@ -112,6 +112,8 @@ class Worker:
             lim = rlimit_as_gb << 30
             resource.setrlimit(resource.RLIMIT_AS, (lim, lim))
             os.setsid()
+            if cpus:
+                os.sched_setaffinity(0, cpus)
         self.p = subprocess.Popen([BSMON], stdin=subprocess.PIPE, stdout=subprocess.PIPE, stderr=errf,
                                   env=fixed_env(extra_env), preexec_fn=pre, bufsize=0)
         self.buf = b''
